@@ -409,6 +409,8 @@ func TestReplay(t *testing.T) {
 		"array":  replayer(evalArray),
 		"objcnt": replayer(evalObjCnt),
 		"tree":   replayer(evalTree),
+
+		"substrate": replayer(evalSubstrate),
 	})
 }
 
